@@ -47,7 +47,9 @@ static std::string groups_str(const ada::url_pattern_component_result& c) {
   std::vector<std::pair<std::string, std::string>> g; for (auto& [k, v] : c.groups) g.emplace_back(k, v ? "=" + *v : std::string("<undef>"));
   std::sort(g.begin(), g.end()); std::string s; for (auto& kv : g) s += kv.first + kv.second + ";"; return s;
 }
-struct Verdict { int test = -1; int exec = -1; int match = -1; std::string rendered; std::optional<ada::url_pattern_result> res; };   // 1 match, 0 no match, 2 error
+// rendered = result of the first successful call on this pattern object (exec), rendered_again = result of a later call (match)
+// on the same object: the answer for a (pattern, input) tuple must not depend on what the object was asked before
+struct Verdict { int test = -1; int exec = -1; int match = -1; std::string rendered, rendered_again; std::optional<ada::url_pattern_result> res; };   // 1 match, 0 no match, 2 error
 static Verdict run_input(Pattern& p, const std::string& itype, const std::string& input, const std::string& ibase) {
   Verdict v; std::string_view b = ibase; const std::string_view* bp = vh::is_null_field(ibase) ? nullptr : &b;
   ada::result<bool> t = tl::unexpected(ada::errors::type_error); ada::result<std::optional<ada::url_pattern_result>> e = tl::unexpected(ada::errors::type_error), m = tl::unexpected(ada::errors::type_error);
@@ -55,6 +57,7 @@ static Verdict run_input(Pattern& p, const std::string& itype, const std::string
   else { ada::url_pattern_init ii = unpack_init(input); t = p.test(ii, bp); e = p.exec(ii, bp); m = p.match(ii, bp); }
   v.test = t ? (*t ? 1 : 0) : 2; v.exec = e ? (e->has_value() ? 1 : 0) : 2; v.match = m ? (m->has_value() ? 1 : 0) : 2;
   if (v.exec == 1) { v.res = **e; for (int i = 0; i < 8; i++) v.rendered += std::string(COMPS[i]) + "{" + res_get(*v.res, i).input + "|" + groups_str(res_get(*v.res, i)) + "}"; }
+  if (v.match == 1) for (int i = 0; i < 8; i++) v.rendered_again += std::string(COMPS[i]) + "{" + res_get(**m, i).input + "|" + groups_str(res_get(**m, i)) + "}";
   return v;
 }
 
@@ -73,6 +76,7 @@ static void check_c14(const Case& c) {
   // (a) test() is true exactly when exec()/match() return a result (errors agree as well)
   if (v.test != v.exec) vh::violation("test-vs-exec", c, "test=" + std::to_string(v.test) + " exec=" + std::to_string(v.exec) + " " + ctx);
   if (v.match != v.exec) vh::violation("match-vs-exec", c, "match=" + std::to_string(v.match) + " exec=" + std::to_string(v.exec) + " " + ctx);
+  if (v.exec == 1 && v.match == 1 && v.rendered != v.rendered_again) vh::violation("second-call-on-same-pattern-differs", c, "exec " + v.rendered + " then match " + v.rendered_again + " " + ctx);
   if (v.exec == 1) n_matches++; else if (v.exec == 0) n_nomatch++;
   // (b) a returned result reports the components of the URL the input denotes
   if (v.exec == 1 && itype == "s") {
@@ -119,7 +123,11 @@ static void check_c14(const Case& c) {
 static std::string comp_pattern(vh::Rng& r, int comp, std::string* literal_out) {
   static const char* lit[8][6] = {{"https", "http", "ws", "foo", "HTTPS", "file"}, {"user", "", "u%40", "bob", "A", "x"}, {"pw", "", "secret", "p:w", "P", "y"}, {"example.com", "www.example.com", "EXAMPLE.com", "localhost", "1.2.3.4", "xn--bcher-kva.de"},
                                   {"8080", "", "443", "80", "0", "65535"}, {"/a/b", "/", "/books/42", "/a%20b", "/A/B", "/caf\xC3\xA9"}, {"q=1", "", "a=b&c=d", "Q=1", "x", "k=v%20w"}, {"frag", "", "top", "FRAG", "a/b", "x=1"}};
-  std::string l = lit[comp][r.below(6)]; if (literal_out) *literal_out = l;
+  std::string l = lit[comp][r.below(6)];
+  // literal text with characters that are special in a regular expression (the fixed text must be escaped when a component is
+  // compiled to a regexp, which the EXACT_MATCH shortcut never needs): pathname / search / hash can carry them verbatim
+  if (comp >= 5 && r.chance(1, 4)) { static const char* rx[] = {"a|b", "a.b", "a$b", "^a", "[ab]", "a-b", "x|y|z", "a,b", "a!b", "a=b|c", "a^b$", "~a"}; l = (comp == 5 ? "/" : "") + std::string(r.pick(rx)); }
+  if (literal_out) *literal_out = l;
   switch (r.below(9)) {
     case 0: return "";                      // EMPTY
     case 1: case 2: return l;               // EXACT_MATCH (unless ignoreCase)
@@ -149,7 +157,8 @@ static Case gen_c14(vh::Rng& r, const std::vector<std::string>& pool) {
   }
   c.push_back(pbase); c.push_back(ic ? "1" : "0");
   // input: instantiate the literals (should match) and near misses
-  auto pickl = [&](int comp, const char* dflt) { std::string v = given[comp] && !lits[comp].empty() ? lits[comp] : std::string(dflt); if (r.chance(1, 6)) { if (!v.empty() && r.coin()) v[r.below(v.size())] ^= 0x20; else v += "x"; } return v; };
+  auto pickl = [&](int comp, const char* dflt) { std::string v = given[comp] && !lits[comp].empty() ? lits[comp] : std::string(dflt); if (r.chance(1, 5)) { unsigned m = (unsigned)r.below(3); size_t sp = v.find_first_of(".|$^[],!~-", 1);
+      if (m == 0 && !v.empty()) v[r.below(v.size())] ^= 0x20; else if (m == 1 && sp != std::string::npos) v[sp] = 'x'; /* a regexp metacharacter left unescaped would still match */ else v += "x"; } return v; };
   std::string proto = pickl(0, "https"), host = pickl(3, "www.example.com"), port = pickl(4, ""), path = pickl(5, "/books/42"), search = pickl(6, ""), hash = pickl(7, ""), user = pickl(1, ""), pass = pickl(2, "");
   if (!given[4] && r.chance(1, 4)) port = "8080";
   if (!given[6] && r.chance(1, 3)) search = "q=1"; if (!given[7] && r.chance(1, 3)) hash = "frag";
